@@ -7,3 +7,13 @@ pub(crate) use bucket_leap_array::*;
 pub(crate) use leap_array::*;
 pub(crate) use metric_bucket::*;
 pub(crate) use sliding_window_metric::*;
+
+/// Verification hook (only with `--cfg sentinel_verif`): make the statistic
+/// building blocks nameable from outside the crate.
+#[cfg(sentinel_verif)]
+pub mod verif_export {
+    pub use super::bucket_leap_array::*;
+    pub use super::leap_array::*;
+    pub use super::metric_bucket::*;
+    pub use super::sliding_window_metric::*;
+}
